@@ -401,7 +401,28 @@ func (fr *frame) lookup(x *ssa.Lookup, st *State) Value {
 	}
 	// map lookup: unconstrained result
 	fx.note("map contents are opaque (updates ignored, lookups unconstrained)")
-	return fx.sym("maplookup", x.Type())
+	res := fx.sym("maplookup", x.Type())
+	if fr.contract != nil && fr.prefix == "" {
+		if p := paramOfValue(x.X); p != nil {
+			if ms := fr.contract.MapSpecs[p.Name()]; ms != nil {
+				ev := fr.env(st, fr.entry, nil)
+				ev.preferLocals = true
+				ev = ev.bind("key", fr.val(x.Index))
+				if x.CommaOk && res.Kind == KTuple {
+					ev = ev.bind("value", res.Elems[0]).bind("ok", res.Elems[1])
+				} else {
+					ev = ev.bind("value", res).bind("ok", BoolV(True))
+				}
+				if t, err := ev.EvalBool(ms.E); err == nil {
+					fr.assume(t)
+					fx.note("caller obligation assumed for map parameter %s of %s: %s", p.Name(), fr.name, ms.Src)
+				} else {
+					fr.specError(ms, err)
+				}
+			}
+		}
+	}
+	return res
 }
 
 func (fr *frame) slice(x *ssa.Slice) Value {
